@@ -456,6 +456,24 @@ func scenarioC14(r *Run) {
 			r.Net.Blackhole(cn, true)
 			r.Count("fault_partition")
 		}
+		// the partition may catch the session in the middle of a transfer: the targets of the connections
+		// that are still open start sending (1 MiB each, more than any socket buffer), so that a tunnel
+		// write is blocked on the dead carrier when the keep-alive gives up and the session is closed
+		if len(stillOpen) > 0 && c.Chance(1, 2, "transfer-into-the-partition") {
+			n := 0
+			for _, t := range w.Targets {
+				for _, p := range t.Peers() {
+					if _, _, _, _, closed, _ := p.Snapshot(); !closed {
+						conn := p.Conn
+						go conn.Write(make([]byte, 1<<20))
+						n++
+					}
+				}
+			}
+			if n > 0 {
+				r.Count("partitions_with_a_write_in_flight")
+			}
+		}
 		if CarrierIsKCP(carrier) || CarrierIsDNS(carrier) {
 			r.Info["partition"] = "datagram carrier: all datagrams dropped"
 			// Drop every datagram for a drawn time. Two minutes is long enough for both ends' keep-alive
